@@ -90,6 +90,16 @@ class PlainUnique(_PlainBase):
     pass
 
 
+# J2O_FnDedup table "homonym": ANOTHER decorated class with the same display name (as if defined in another module)
+def _homonym(name: str, unique: bool):
+    cls = type(name, (_PlainBase,), {"__module__": "harness.userfns_other", "__qualname__": name})
+    return onnx_function(unique=True)(cls) if unique else onnx_function(cls)
+
+
+PlainSharedHomonym = _homonym("PlainShared", False)
+PlainUniqueHomonym = _homonym("PlainUnique", True)
+
+
 def _free_impl(x, scale=1.0, flip=False, shift=0.0):
     y = x.astype(jnp.float32) @ _weights(1)
     return jnp.where(flip, -y, y) * scale + shift
